@@ -238,9 +238,12 @@ impl<'env, 'source> Template<'env, 'source> {
     ) -> Result<Captured<'source>, Error> {
         let root = ctx.into();
         let w = std::cell::RefCell::new(WriteWrapper { w, err: None });
-        self.clone()
-            ._capture_state_with_output(root, &w)
-            .map_err(|err| w.into_inner().take_err(err))
+        let rv = self.clone()._capture_state_with_output(root, &w);
+        let mut w = w.into_inner();
+        match rv {
+            Ok(captured) => w.check(captured),
+            Err(err) => Err(w.take_err(err)),
+        }
     }
 
     fn _render(&self, root: Value) -> Result<String, Error> {
